@@ -147,3 +147,34 @@ package api
 //@                  && a.Rlimits[old(len(a.Rlimits))].Type == typ && a.Rlimits[old(len(a.Rlimits))].Hard == hard && a.Rlimits[old(len(a.Rlimits))].Soft == soft
 //@   ensures [pre]  forall i int :: 0 <= i && i < old(len(a.Rlimits)) ==> a.Rlimits[i] == old(a.Rlimits[i])
 //@   ensures [arr]  base(a.Rlimits) == old(base(a.Rlimits)) || fresh(a.Rlimits)
+
+// -- helpers used when hooks are converted for the OCI spec (C13)
+//@ func DupStringSlice
+//@   props C13 C14
+//@   ensures [nil]  in == nil ==> result == nil
+//@   ensures [dup]  in != nil ==> result != nil && fresh(result) && len(result) == len(in) && (forall i int :: 0 <= i && i < len(in) ==> result[i] == in[i])
+//@ func OptionalInt.Get
+//@   props C13 C14
+//@   ensures (o == nil ==> result == nil) && (o != nil ==> result != nil && fresh(result) && deref(result) == int(o.Value))
+//@ pure sameStrs(a []string, b []string) = len(a) == len(b) && (forall i int :: 0 <= i && i < len(b) ==> a[i] == b[i])
+//@ func Hook.ToOCI
+//@   props C13 C14
+//@   requires h != nil
+//@   ensures result.Path == h.Path && sameStrs(result.Args, h.Args) && sameStrs(result.Env, h.Env)
+//@   ensures (h.Timeout == nil ==> result.Timeout == nil) && (h.Timeout != nil ==> result.Timeout != nil && deref(result.Timeout) == int(h.Timeout.Value))
+//@   ensures (h.Args == nil ==> result.Args == nil) && (h.Args != nil ==> fresh(result.Args)) && (h.Env == nil ==> result.Env == nil) && (h.Env != nil ==> fresh(result.Env))
+
+// -- mounts converted for the OCI spec (C13)
+//@ pure isProp(o string) = o == "rprivate" || o == "rshared" || o == "rslave"
+//@ func Mount.ToOCI
+//@   props C13 C14
+//@   requires m != nil
+//@   modifies propagationQuery
+//@   ensures [mnt]  result.Destination == m.Destination && result.Type == m.Type && result.Source == m.Source && sameStrs(result.Options, m.Options)
+//@   ensures [arr]  len(m.Options) == 0 || fresh(result.Options)
+//@   ensures [none] propagationQuery != nil && (forall i int :: 0 <= i && i < len(m.Options) ==> !isProp(m.Options[i])) ==> deref(propagationQuery) == old(deref(propagationQuery))
+//@   ensures [prop] propagationQuery != nil && !(forall i int :: 0 <= i && i < len(m.Options) ==> !isProp(m.Options[i])) ==> isProp(deref(propagationQuery))
+//@   loop 1 invariant 0 <= idx + 1 && idx + 1 <= len(m.Options) && len(o.Options) == idx + 1 && (idx >= 0 ==> fresh(o.Options)) && (idx == 0 - 1 ==> o.Options == nil)
+//@   loop 1 invariant forall i int :: 0 <= i && i <= idx ==> o.Options[i] == m.Options[i]
+//@   loop 1 invariant o.Destination == m.Destination && o.Type == m.Type && o.Source == m.Source
+//@   loop 1 invariant propagationQuery != nil ==> ((forall i int :: 0 <= i && i <= idx ==> !isProp(m.Options[i])) ==> deref(propagationQuery) == old(deref(propagationQuery))) && (!(forall i int :: 0 <= i && i <= idx ==> !isProp(m.Options[i])) ==> isProp(deref(propagationQuery)))
